@@ -13,7 +13,7 @@ type c12In struct {
 	Lists [][]uint64 `json:"lists"`
 	Ts    []uint64   `json:"ts"`
 	Views []int      `json:"views,omitempty"` // fc: the members are the prefix views all[:Views[i]] of ONE array all = Lists[0] (cumulative lists sharing storage)
-	Pre   []uint64   `json:"pre,omitempty"` // fc: member i is skipped to Pre[i%len] BEFORE the members are grouped (to the model: a cursor over the rest of its list)
+	Pre   []uint64   `json:"pre,omitempty"`   // fc: member i is skipped to Pre[i%len] BEFORE the members are grouped (to the model: a cursor over the rest of its list)
 }
 
 const nullEntry = ^uint64(0)
